@@ -63,6 +63,7 @@ type numCase struct {
 	v       *big.Rat
 	carrier any
 	kind    reflect.Kind
+	idx     int
 }
 
 func (n *numCase) expected() bool {
@@ -196,6 +197,7 @@ func errNil(e any) bool {
 
 func (p *c13) Run(w *lib.Worker, idx int, r *lib.Rand) lib.Case {
 	n := p.gen(r)
+	n.idx = idx
 	want := n.expected()
 	entry := []string{"native", "typed", "param", "header", "schema", "schema-jsonnumber", "carriers"}[r.Weighted(4, 2, 3, 2, 3, 2, 2)]
 	render := fmt.Sprintf("%s %s(%s) vs %s via %s", n.op, n.kind, n.v.RatString(), n.cText, entry)
@@ -349,6 +351,12 @@ func (p *c13) Run(w *lib.Worker, idx int, r *lib.Rand) lib.Case {
 	sample["implementation_says_ok"] = got
 	sample["message"] = msg
 	// recorded deviations
+	if entry == "schema-jsonnumber" && !got && !strings.Contains(render, `"type"`) && strings.Contains(msg, "must be of type string") {
+		c.Known = []string{"json-number-rejected-without-declared-numeric-type"}
+		c.KnownWhat = fmt.Sprintf("%s exact=%v impl=%v %s", render, want, got, msg)
+		c.Sample = sample
+		return c
+	}
 	if n.op == "mult" && n.floatTolerance() {
 		c.Known = []string{"multipleof-float-tolerance"}
 		c.KnownWhat = fmt.Sprintf("%s exact=%v impl=%v %s", render, want, got, msg)
@@ -471,6 +479,10 @@ func (p *c13) schema(n *numCase, r *lib.Rand) []byte {
 		}
 	default:
 		s["multipleOf"] = json.Number(n.cText)
+	}
+	if n.idx%9 == 4 {
+		// the constraint alone, without a declared type: the verdict must not depend on the carrier either
+		delete(s, "type")
 	}
 	return gen.JSON(s)
 }
